@@ -340,8 +340,8 @@ static std::vector< Finding > parse_valgrind(const std::string &log, uint64_t &s
       ++syscall_param;
       continue;
     }
-    if ((kind == "invalid-read" || kind == "invalid-write") && j + 1 < lines.size() &&
-        strip(lines[j + 1]).find("Address 0x0 is not") == 0)
+    if ((kind == "invalid-read" || kind == "invalid-write") && j < lines.size() &&
+        strip(lines[j]).find("Address 0x0 is not") != std::string::npos)
       kind = "null-deref";
     if (kind == "fatal-signal" && !out.empty())
       continue; // consequence of an error already reported
